@@ -77,6 +77,12 @@ def run_unit(unit, rng, ctx):
     # a common motion of all atoms (what drift correction is for) on top of the individual walks
     common = np.cumsum(rng.uniform(-0.05, 0.05, size=(T, 1, 3)) * (np.arange(T) > 0)[:, None, None], axis=0)
     U = U + common
+    slow = unit['i'] % 5 == 4
+    if slow:
+        # a nearly static crystal with a very slow common drift: per-frame steps of 1e-10 .. 1e-8 cell
+        amp = 10.0 ** float(rng.uniform(-10, -8))
+        U = U[:1] + np.cumsum(rng.uniform(-1, 1, size=(T, N, 3)) * amp * 0.1 + rng.uniform(-1, 1, size=(T, 1, 3)) * amp, axis=0) * (np.arange(T) > 0)[:, None, None]
+        ctx.count('slow_drift_cases(steps<=1e-8)')
     species_mode = str(rng.choice(['element', 'species', 'mixed']))
     sp = gen.species_objects(names, rng=rng, mode=species_mode)
     dt = 1e-15
@@ -113,7 +119,7 @@ def run_unit(unit, rng, ctx):
         drift = np.asarray(traj.drift(**kwargs))
         corr = traj.apply_drift_correction(**kwargs)
         d_want, c_want = model(Uin)
-        ctx.check(drift.shape == d_want.shape and bool(np.all(np.isfinite(drift))) and float(np.abs(drift - d_want).max()) <= 1e-9, f'{what}{tag}: drift() is not the mean per-frame displacement of the reference species (finite={bool(np.all(np.isfinite(drift)))})', {'names': names, 'ref': ref, 'got': drift[:5], 'want': d_want[:5]})
+        ctx.check(drift.shape == d_want.shape and bool(np.all(np.isfinite(drift))) and float(np.abs(drift - d_want).max()) <= (1e-13 if slow else 1e-9), f'{what}{tag}: drift() is not the mean per-frame displacement of the reference species (finite={bool(np.all(np.isfinite(drift)))})', {'names': names, 'ref': ref, 'got': drift[:5], 'want': d_want[:5]})
         cd = np.asarray(corr.displacements)
         resid = np.abs(cd[:, ref].mean(axis=1))
         ctx.check(bool(np.all(np.isfinite(cd))) and float(resid.max()) <= 1e-12, f'{what}{tag}: residual mean displacement of the reference species after correction is {resid.max():.3e}', {'names': names, 'ref': ref})
